@@ -34,6 +34,8 @@ def _case(draw):
         'damping_schedule': draw(st.one_of(st.none(), st.none(), st.lists(st.sampled_from([0.003, 0.03, 0.1, 0.3, 1.0]), min_size=2, max_size=4))),
         # before this step (if < steps) the state is saved and loaded into a fresh preconditioner on a fresh copy of the model
         'reload_at': draw(st.sampled_from([None, None, None, 1, 2, 3])),
+        # learning rate given as a schedule (callable of the step) instead of the constant: nu of step t uses lr(t)
+        'lr_schedule': draw(st.one_of(st.none(), st.none(), st.lists(st.sampled_from([0.01, 0.1, 0.5, 1.0, 2.0]), min_size=2, max_size=4))),
         'N': draw(st.integers(1, 6)),
         'style': draw(gens.style_strategy()),
         'data_seed': draw(st.integers(0, 10 ** 6)),
@@ -169,7 +171,9 @@ class C01(Prop):
         sched = c.get('damping_schedule')
         lam_of = (lambda step: sched[step % len(sched)]) if sched else (lambda step: c['damping'])
         interval = c.get('interval', 1)
-        kwargs = dict(damping=(lam_of if sched else c['damping']), factor_decay=c['decay'], lr=c['lr'], compute_method=c['method'],
+        lrs = c.get('lr_schedule')
+        lr_of = (lambda step: lrs[step % len(lrs)]) if lrs else (lambda step: c['lr'])
+        kwargs = dict(damping=(lam_of if sched else c['damping']), factor_decay=c['decay'], lr=(lr_of if lrs else c['lr']), compute_method=c['method'],
                       factor_update_steps=interval, inv_update_steps=interval,
                       compute_eigenvalue_outer_product=c['prediv'], colocate_factors=c['colocate'],
                       factor_dtype=kmodel.dt(c['factor_dtype']), inv_dtype=kmodel.dt(c['inv_dtype']))
@@ -229,7 +233,7 @@ class C01(Prop):
                     A0, G0 = sd0[n]['A'].to(torch.float64), sd0[n]['G'].to(torch.float64)
                     V0 = (refkfac.solve_inverse if c['method'] == 'inverse' else refkfac.solve_eigen)(A0, G0, lam, D[n])[0]
                     pr.append((V0, D[n]))
-                vg0 = abs(sum((V * Dd).sum().item() for V, Dd in pr)) * c['lr'] ** 2
+                vg0 = abs(sum((V * Dd).sum().item() for V, Dd in pr)) * lr_of(t) ** 2
                 klbox[0] = vg0 * [0.1, 0.25, 0.5][t % 3] if vg0 > 0 else 1e-3
             try:
                 pre.step()
@@ -258,7 +262,7 @@ class C01(Prop):
                 sols[n] = V
                 pairs.append((V, D[n]))
                 meta[n] = (A, G, kappa)
-            nu, vg = refkfac.clip_scale(klbox[0], c['lr'], pairs)
+            nu, vg = refkfac.clip_scale(klbox[0], lr_of(t), pairs)
             tol_all = max(refkfac.tolerance(meta[n][2], D[n].numel(), eps) for n in names)
             for n in names:
                 A, G, kappa = meta[n]
